@@ -141,6 +141,7 @@ def run(ctx):
     import time
     ctx.laps, ctx.lap0 = [], time.time()
     q = ctx.quick
+    vacuous = []        # needed spec branches that no recorded event matched (judged at the end, see _vacuity)
     rnd = random.Random(ctx.seed * 1000003 + 36)
     assumptions = [
         "key names are uninterpreted by the cache (3 keys stand for any keys); values are compared by pointer identity",
@@ -170,17 +171,24 @@ def run(ctx):
     # ------------------------------------------------------------------ 3. long random histories (TLC simulation)
     nexh = len(scen)
     sims = []
-    for (keys, caps, ln, num) in ([("{1, 2, 3}", "{1, 2, 3}", 20, 30)] if q else
-                                  [("{1, 2, 3}", "{1, 2, 3}", 40, 400), ("{1, 2, 3, 4, 5}", "{2, 4}", 60, 150),
-                                   ("{%s}" % ", ".join(map(str, range(1, 71))), "{0, 64}", 400, 2)]):
-        cfgname = _cfg(ctx, "LRU_MC_sim%d" % len(sims), "LRU_MC", MaxLen=ln, Keys=keys, Caps=caps)
+    # (keys, capacities, history length, simulated runs, Put(k, nil) included, histories kept per run)
+    for (keys, caps, ln, num, nilputs, keep) in ([("{1, 2, 3}", "{1, 2, 3}", 20, 30, True, 9)] if q else
+                                  [("{1, 2, 3}", "{1, 2, 3}", 40, 400, True, 9), ("{1, 2, 3, 4, 5}", "{2, 4}", 60, 150, True, 15),
+                                   ("{%s}" % ", ".join(map(str, range(1, 71))), "{0, 64}", 400, 4, False, 10)]):
+        cfgname = _cfg(ctx, "LRU_MC_sim%d" % len(sims), "LRU_MCsim", MaxLen=ln, Keys=keys, Caps=caps, NilPuts="TRUE" if nilputs else "FALSE")
         sm = ctx.tlc("LRU_MC", cfg=cfgname, simulate="num=%d" % num, depth=ln + 1, extra=["-seed", str(ctx.seed)], timeout=1500)
         if sm.violated:
             raise vlib.Machinery("LRU_MC simulation: model-level invariant %r violated" % sm.violated)
-        got = sm.tagged("SCN")
-        if len(got) < num:      # (TLC prints every terminal successor of the last step: several histories per simulated run)
-            raise vlib.Machinery("LRU_MC simulation emitted %d of %d histories" % (len(got), num))
-        sims.append((keys, caps, ln, len(got)))
+        # TLC prints every terminal successor of the last step (siblings that differ in the last call only): keep `keep` per run
+        got, seen = [], {}
+        for s in sm.tagged("SCN"):
+            pre = json.dumps([s["cap"], s["ops"][:-1]])
+            seen[pre] = seen.get(pre, 0) + 1
+            if seen[pre] <= keep:
+                got.append(s)
+        if len(got) < num:
+            raise vlib.Machinery("LRU_MC simulation emitted %d histories for %d runs" % (len(got), num))
+        sims.append((keys if len(keys) < 40 else "{1..70}", caps, ln, len(got)))
         scen += [dict(s, id=len(scen) + i + 1) for i, s in enumerate(got)]
     byid = {s["id"]: s for s in scen}
 
@@ -192,7 +200,7 @@ def run(ctx):
     ctx.traces += len(per)
     for a in SEQ_COVER + ["TReset"]:
         if cov.get(a, 0) == 0:
-            raise vlib.Machinery("vacuity: trace action %s never matched a recorded call" % a)
+            vacuous.append("vacuity: trace action %s never matched a recorded call" % a)
     seq_calls = sum(cov.get(a, 0) for a in SEQ_COVER)
 
     _lap(ctx, "sequential validation")
@@ -241,7 +249,7 @@ def run(ctx):
     ctx.traces += len(cper)
     for a in CONC_COVER:
         if ccov.get(a, 0) == 0:
-            raise vlib.Machinery("vacuity: trace action %s never matched in the concurrent executions" % a)
+            vacuous.append("vacuity: trace action %s never matched in the concurrent executions" % a)
     _lap(ctx, "concurrent validation")
     overl = 0
     for i, es in cper.items():
@@ -293,6 +301,13 @@ def run(ctx):
 
     _lap(ctx, "concurrent reproduction")
     # ------------------------------------------------------------------ binding canaries
+    if vacuous:
+        # a needed branch that never matched is a machinery problem - unless the implementation's deviation is the reason
+        # (then the rejections above are the finding and the unmatched branches are only noted)
+        if not ctx.findings:
+            raise vlib.Machinery("; ".join(vacuous))
+        for v in vacuous:
+            ctx.note(v + " (rejections reported instead)")
     canaries = _canaries(ctx, per, rejected, cper, crejected)
     _lap(ctx, "canaries")
     print("laps:", ctx.laps)
